@@ -31,6 +31,12 @@ MODS = ["a", "b", "c", "m1", "util", "zeta"]
 PKGS = ["pkg", "pkg/sub", "lib"]
 STD = ["os", "math", "sys", "itertools"]
 
+# characters that str.splitlines() treats as line boundaries but "\n".split does not (and \f), raw inside string
+# literals: the stored source must keep them verbatim
+ODD = ["\x0b", "\x0c", "\x1c", "\x1d", "\x1e", "\x85", "\u2028", "\u2029", "\x1f", "\xa0"]
+ODD_BODY = [f's = "a{c}b"\nprint(s)' for c in ODD] + [f"t = 'x{ODD[0]}y{ODD[6]}z'", f'u = """k{ODD[2]}\nl{ODD[5]}"""',
+                                                      "v = 'carriage\rreturn'", f"w = 1  # comment {ODD[7]} here"]
+
 BODY = [
     "x = 1",
     "t = [ 1, 2 ] + [3]",
@@ -79,7 +85,29 @@ def gen_files(rng, dotted=False):
     paths = list(dict.fromkeys(paths))
     modname = {p: p[:-3].replace("/", ".") for p in paths}
     files = {}
-    shape = rng.choice(["random", "random", "cycle", "chain", "self", "dense", "none"])
+    shape = rng.choice(["random", "random", "cycle", "chain", "self", "dense", "none", "entry", "entry"])
+    if shape == "entry":
+        # a cycle of length 1-3 reached from 1-2 programs OUTSIDE the cycle, named to sort before and/or after its members
+        k = rng.choice([1, 2, 3])
+        members = [f"{rng.choice(['pkg/', '', ''])}{nm}.py" for nm in rng.sample(["m_utils", "n_vectors", "o_core"], k)]
+        outside = rng.sample(["a_main.py", "zz_main.py", "b_entry.py", "pkg/a_first.py", "zz/late.py"], rng.choice([1, 2]))
+        paths = list(dict.fromkeys(outside + members + [p for p in paths if rng.random() < 0.3]))
+        modname = {p: p[:-3].replace("/", ".") for p in paths}
+        files = {}
+        for p in paths:
+            if p in members:
+                i = members.index(p)
+                lines = [f"import {modname[members[(i + 1) % k]]}"]
+                if rng.random() < 0.2:
+                    lines.append(f"import {modname[rng.choice(members)]}")
+            elif p in outside:
+                lines = [rng.choice([f"import {modname[rng.choice(members)]}", f"from {modname[rng.choice(members)]} import f"])]
+                if rng.random() < 0.3:
+                    lines.append(f"import {modname[rng.choice(outside)]}")
+            else:
+                lines = [f"import {modname[rng.choice(paths)]}"] if rng.random() < 0.5 else []
+            files[p] = "\n".join(lines + [rng.choice(BODY)]) + "\n"
+        return files
     order = list(paths)
     for idx, p in enumerate(paths):
         lines = []
@@ -124,7 +152,7 @@ def gen_files(rng, dotted=False):
         if lines and rng.random() < 0.2:
             rng.shuffle(lines)
         k = rng.choice([0, 1, 1, 2, 3])
-        body = [rng.choice(BODY) for _ in range(k)]
+        body = [rng.choice(BODY) if rng.random() < 0.8 else rng.choice(ODD_BODY) for _ in range(k)]
         if rng.random() < 0.3:
             # an import nested in a function
             q = rng.choice(paths)
@@ -182,6 +210,30 @@ def recording(rec):
         lp.ProgramParser, mdb.Taxonomy = RealParser, RealTaxonomy
 
 
+class Watchdog(BaseException):
+    """Raised in the main thread when a call of the implementation exceeds its deadline."""
+
+
+@contextlib.contextmanager
+def deadline(seconds):
+    """`with deadline(s):` raises Watchdog inside the block after `s` seconds (pure-Python loops are interruptible)."""
+    import signal
+
+    def handler(signum, frame):
+        raise Watchdog()
+
+    old = signal.signal(signal.SIGALRM, handler)
+    signal.setitimer(signal.ITIMER_REAL, seconds)
+    try:
+        yield
+    finally:
+        signal.setitimer(signal.ITIMER_REAL, 0)
+        signal.signal(signal.SIGALRM, old)
+
+
+DEADLINE = 6.0  # seconds; a TagDatabase call on a generated directory takes well under one second
+
+
 def quiet(fn, *a, **k):
     buf = io.StringIO()
     with contextlib.redirect_stdout(buf):
@@ -213,8 +265,12 @@ def run_real(root: Path, out_dir: Path, cleanup="full"):
     rec = Recorder()
     res = {"rec": rec}
     try:
-        with recording(rec):
+        with recording(rec), deadline(DEADLINE):
             db = quiet(TagDatabase, root, ignore_timestamps=True, cleanup_strategy=cleanup)
+    except Watchdog:
+        res["exc"] = "Timeout"
+        res["exc_msg"] = f"TagDatabase did not return within {DEADLINE} s (collecting must terminate for every import graph)"
+        return res
     except RecursionError:
         res["exc"] = "RecursionError"
         return res
@@ -237,7 +293,27 @@ def run_real(root: Path, out_dir: Path, cleanup="full"):
         "importations": dict(db.importations), "exportations": dict(db.exportations)}))
     spath = out_dir / "out_db.sqlite"
     quiet(db.write_sqlite, spath)
+    res["sqlite_first"] = read_sqlite(spath)
+    # a second export onto the SAME existing files must leave the same facts (and the same JSON bytes)
+    quiet(db.write_sqlite, spath)
     res["sqlite"] = read_sqlite(spath)
+    quiet(db.write_json, jpath)
+    res["json_rewrite_same"] = jpath.read_text() == text
+    # the "verbatim" clause, computed independently of get_program: for a hint-free text the stored source is the
+    # cleaned text with blank ends stripped
+    from paroxython.preprocess_source import Cleanup
+    res["verbatim"] = None
+    for p, info in db.programs_infos.items():
+        try:
+            raw = (root / p).read_text()
+        except Exception:  # noqa
+            continue
+        if "paroxython" in raw.lower():
+            continue
+        expected = str(Cleanup(cleanup).run(raw)).strip()
+        if info["source"] != expected:
+            res["verbatim"] = {"path": p, "stored": info["source"], "expected": expected}
+            break
     return res
 
 
@@ -329,7 +405,9 @@ def judge_dir(ctx, drv, files, root, out_dir, cleanup="full"):
     res = run_real(root, out_dir, cleanup)
     if "exc" in res:
         what = f"TagDatabase aborted with {res['exc']}"
-        model = predict_abort(drv, res, root, cleanup)
+        model = predict_abort(drv, res, root, cleanup) if res["exc"] != "Timeout" else {"returns": True}
+        if res["exc"] == "Timeout":
+            what = "TagDatabase does not terminate (watchdog)"
         return {"kind": "violation", "what": what, "impl": {"exc": res["exc"], "msg": res.get("exc_msg")},
                 "model": model, "spec": "C11/C14: a database with one record per program (Props/C11.lean: C11_total)",
                 "signature": None}
@@ -340,8 +418,20 @@ def judge_dir(ctx, drv, files, root, out_dir, cleanup="full"):
                 "what": "json.loads(get_json()) differs from the data computed in memory: "
                         + str(first_diff(res["json"], res["memory"])),
                 "impl": {"at": first_diff(res["json"], res["memory"])}}
-    if not res["json_file_same"]:
-        return {"kind": "violation", "what": "write_json wrote something else than get_json()", "impl": None}
+    if not res["json_file_same"] or not res["json_rewrite_same"]:
+        return {"kind": "violation", "what": "write_json wrote something else than get_json() (first or second write "
+                                             "onto the same file)", "impl": None}
+    if res["verbatim"] is not None:
+        return {"kind": "violation",
+                "what": f"stored source of {res['verbatim']['path']} is not verbatim the cleaned, hint-free source",
+                "impl": {"stored": res["verbatim"]["stored"]}, "spec": {"cleaned, blank ends stripped": res["verbatim"]["expected"]}}
+    if res["sqlite_first"] != res["sqlite"]:
+        return {"kind": "violation",
+                "what": "a second write_sqlite onto the same file changes the rows read back: "
+                        + str(first_diff(res["sqlite_first"], res["sqlite"])),
+                "impl": {"rows_after_first_write": {k: len(v) for k, v in res["sqlite_first"].items()},
+                         "rows_after_second_write": {k: len(v) for k, v in res["sqlite"].items()}},
+                "spec": "the SQLite export holds the same program, label and taxon facts"}
     progs = progs_request(res)
     if progs is None:
         return {"kind": "machinery", "what": "recording wrappers did not see one call per program"}
@@ -466,7 +556,13 @@ def stream_dirs(ctx, drv, n_dirs):
                 w = judge_dir(ctx, drv, cand, r, r.parent, cleanup)
                 return w["kind"] == kind0 and w["what"].split(" at ")[0] == what0 and w.get("signature") == v.get("signature")
 
-            small = shrink_files(files, still_fails)
+            is_timeout = "terminate" in v["what"]
+            if is_timeout:
+                ctx.dist("dirs.timeout")
+            n_to = ctx.cov["distribution"].get("dirs.timeout", 0)
+            n_viol = len(ctx.violations)
+            small = files if ((is_timeout and n_to > 1) or n_viol >= 3) else shrink_files(
+                files, still_fails, budget=6 if is_timeout else 40)
             r = base / f"{name}-min" / "progs"
             write_dir(r, small)
             w = judge_dir(ctx, drv, small, r, r.parent, cleanup)
@@ -480,6 +576,12 @@ def stream_dirs(ctx, drv, n_dirs):
                            "how": "write the files under a fresh directory D; TagDatabase(D, ignore_timestamps=True, "
                                   "cleanup_strategy=cleanup); json.loads(get_json()) / write_sqlite"},
             })
+        if len(ctx.violations) >= 8:
+            ctx.notes.append("directory stream stopped after eight violations")
+            break
+        if ctx.cov["distribution"].get("dirs.timeout", 0) >= 3:
+            ctx.notes.append("directory stream stopped after three non-terminating directories (each costs a deadline)")
+            break
         # keep the scratch small
         if i % 20 == 19:
             for sub in base.iterdir():
@@ -499,6 +601,15 @@ def fixed_dirs():
                     "pkg/q.py": "def g():\n    return 1\n", "pkg/sub/n.py": "from pkg import q\nimport q\n",
                     "q.py": "import pkg.m\nimport unknown\n", "top.py": "from pkg.sub import n\nfrom pkg.sub.n import z\n"}),
         ("empty", {"a.py": "", "b.py": "import a\n"}),
+        ("odd-chars-1", {"a.py": "import b\n" + ODD_BODY[0] + "\n", "b.py": ODD_BODY[6] + "\n" + ODD_BODY[2] + "\n",
+                         "c.py": "import a\n" + ODD_BODY[10] + "\n"}),
+        ("odd-chars-2", {"a.py": ODD_BODY[1] + "\nimport b\n", "b.py": ODD_BODY[4] + "\n" + ODD_BODY[11] + "\n" + ODD_BODY[5] + "\n",
+                         "c.py": ODD_BODY[3] + "\n" + ODD_BODY[7] + "\n" + ODD_BODY[12] + "\n" + ODD_BODY[13] + "\n"}),
+        # an entry point outside an import cycle, sorting BEFORE its members (and one sorting after)
+        ("entry-before-cycle", {"main.py": "import utils\n", "utils.py": "import vectors\n", "vectors.py": "import utils\n"}),
+        ("entry-before-self", {"a.py": "import b\n", "b.py": "import b\nx = 1\n", "c.py": "import b\n"}),
+        ("entries-around-cycle3", {"a_main.py": "from n import f\n", "m.py": "import n\n", "n.py": "import o\n",
+                                   "o.py": "import m\n", "zz.py": "import a_main\nimport o\n"}),
         ("dotted-file", {"a.b.py": "x = 1\n", "c.py": "import a.b\n"}),
         ("dotted-dir", {"p.q/m.py": "z = 3\n", "e.py": "import p.q.m\n"}),
         ("hint-uncollected", {"a.py": "x = 1 # paroxython: import_internally:zz\n"}),
@@ -533,13 +644,28 @@ def stream_helpers(ctx, drv):
     # -- closure on random graphs
     sizes = [(n, p) for n in (1, 2, 3, 4, 5, 6, 8) for p in (0.0, 0.15, 0.3, 0.6)] * (2 if quick else 12)
     sizes += [(40, 0.05), (80, 0.03), (150, 0.012)] if quick else [(40, 0.05)] * 5 + [(150, 0.012)] * 5 + [(400, 0.004), (1000, 0.0012)]
-    for (n, p) in sizes:
-        nodes, d = rand_graph(ctx.rng, n, p)
-        try:
-            impl = mdb.complete_and_collect_importations({k: set(v) for k, v in d.items()})
-            impl = [[k, list(v)] for k, v in impl.items()]
-        except RecursionError:
-            impl = "RecursionError"
+    entry_graphs = [
+        {"main.py": {"utils.py"}, "utils.py": {"vectors.py"}, "vectors.py": {"utils.py"}},
+        {"a.py": {"b.py"}, "b.py": {"b.py"}},
+        {"a.py": {"c.py"}, "b.py": {"a.py"}, "c.py": {"d.py"}, "d.py": {"e.py"}, "e.py": {"c.py"}, "z.py": {"e.py", "a.py"}},
+    ]
+    for _ in range(6 if quick else 60):
+        k = ctx.rng.choice([1, 2, 3])
+        cyc = [f"m{j}.py" for j in range(k)]
+        g = {c: {cyc[(j + 1) % k]} for j, c in enumerate(cyc)}
+        for o in ctx.rng.sample(["a0.py", "a1.py", "z0.py", "z1.py"], ctx.rng.choice([1, 2])):
+            g[o] = {ctx.rng.choice(cyc)}
+        entry_graphs.append(dict(sorted(g.items())))
+    for (n, p) in [(None, None)] * len(entry_graphs) + sizes:
+        if n is None:
+            d = entry_graphs.pop(0)
+            nodes = list(d)
+            ctx.dist("graphs.entry_outside_cycle")
+        else:
+            nodes, d = rand_graph(ctx.rng, n, p)
+        if ctx.cov["distribution"].get("graphs.timeout", 0) >= 2:
+            break  # two concrete non-terminating graphs are enough; every further one would cost a deadline
+        impl = closure_impl(mdb, d)
         direct = [[k, sorted(v)] for k, v in d.items()]
         m = drv.call("c11.closure", direct=direct)["r"]
         edges = sum(len(v) for v in d.values())
@@ -547,9 +673,13 @@ def stream_helpers(ctx, drv):
         ctx.dist("graphs.nodes", len(nodes))
         if impl != m:
             ctx.cov["disagreements_checked"] += 1
-            s = drv.call("c11.spec_closure", direct=direct)["r"] if n <= 40 else m
+            s = drv.call("c11.spec_closure", direct=direct)["r"] if len(nodes) <= 40 else m
             if impl != s:
-                small = shrink_graph(d, lambda g: closure_fails(mdb, drv, g))
+                timed_out = isinstance(impl, str) and impl.startswith("Timeout")
+                if timed_out:
+                    ctx.dist("graphs.timeout")
+                # a non-terminating candidate costs a whole deadline: entry graphs are small already, keep them as they are
+                small = d if timed_out else shrink_graph(d, lambda g: closure_fails(mdb, drv, g))
                 ctx.violations.append({
                     "what": "complete_and_collect_importations is not the sorted transitive closure",
                     "replay": {"kind": "closure", "direct": {k: sorted(v) for k, v in small.items()},
@@ -558,7 +688,7 @@ def stream_helpers(ctx, drv):
                                "spec": drv.call("c11.spec_closure", direct=[[k, sorted(v)] for k, v in small.items()])["r"]}})
             else:
                 ctx.broken.append("corr:closure-model-vs-spec")
-        elif n <= 8:
+        elif len(nodes) <= 8:
             s = drv.call("c11.spec_closure", direct=direct)["r"]
             if s != m:
                 ctx.broken.append("corr:closure-model-vs-spec")
@@ -646,8 +776,11 @@ def stream_helpers(ctx, drv):
 
 def closure_impl(mdb, d):
     try:
-        r = mdb.complete_and_collect_importations({k: set(v) for k, v in d.items()})
+        with deadline(3.0):
+            r = mdb.complete_and_collect_importations({k: set(v) for k, v in d.items()})
         return [[k, list(v)] for k, v in r.items()]
+    except Watchdog:
+        return "Timeout (no result within 3 s)"
     except RecursionError:
         return "RecursionError"
 
